@@ -9,7 +9,7 @@ Bad(c) == {i \in 1..Len(c.rem) : ~Contract(c.rem[i], c.t[i])}
 NonMono(c) == {i \in 1..(Len(c.rem) - 1) : c.rem[i] <= c.rem[i + 1] /\ c.t[i] > c.t[i + 1]}
 \* the same clock state evaluated in other orders (tf: after a call for another ply and colour, td: chain walked downwards):
 \* the allotment is a function of the clock state, so every order gives the same value (and the contract holds for each)
-Orders(c) == {i \in 1..Len(c.rem) : c.tf[i] # c.t[i] \/ c.td[i] # c.t[i] \/ ~Contract(c.rem[i], c.tf[i]) \/ ~Contract(c.rem[i], c.td[i])}
+Orders(c) == {i \in 1..Len(c.tf) : c.tf[i] # c.t[i] \/ c.td[i] # c.t[i] \/ ~Contract(c.rem[i], c.tf[i]) \/ ~Contract(c.rem[i], c.td[i])}
 MNext == /\ l <= Len(T)
          /\ \E r \in {[bad |-> Bad(T[l]), nm |-> NonMono(T[l]), ord |-> Orders(T[l])]} :
               /\ (r.ord # {} => PrintT("VIOL " \o ToJson([line |-> l, prop |-> "C20", kind |-> "depends_on_call_history",
